@@ -392,15 +392,40 @@ class Checker:
                 if mine and (mine[0] not in members[c] or
                              mine != members[c][members[c].index(mine[0]):members[c].index(mine[0]) + len(mine)]):
                     ok = False
+            if any(lay[i] == -1 for i in ids):
+                ok = False  # unlabeled samples belong to no class
             if not ok:
                 self.bad("ClasswiseSubsetWrapper", "percent_not_per_class_slices", kw, f"got {ids}")
         for p in PERCENTS:
             if p is None:
                 continue
             a, b = res.get((None, p)), res.get((p, None))
-            if a is not None and b is not None and sorted(a + b) != list(range(n)):
+            if a is not None and b is not None and sorted(a + b) != [i for i in range(n) if lay[i] != -1]:
                 self.bad("ClasswiseSubsetWrapper", "percent_complement_not_partition", dict(p=p),
                          f"end={p} gives {a}, start={p} gives {b}", f"|p={'0' if p == 0 else '1' if p == 1 else 'inner'}")
+
+    def oversampling_unlabeled(self):
+        """mode='multiply' with unlabeled (-1) samples: labeled classes are balanced, unlabeled samples stay once."""
+        n, lay = self.n, self.layout
+        cnt = [lay.count(c) for c in range(3)]
+        mx = max(cnt)
+        if mx == 0:
+            return
+        ids = self.get("OversamplingWrapper", dict(mode="multiply"))
+        if ids is None:
+            return
+        if any(i < 0 or i >= n for i in ids) or set(ids) != set(range(n)):
+            self.bad("OversamplingWrapper", "loses_samples", dict(mode="multiply"), f"got {ids}", "|multiply|unlabeled")
+            return
+        for c in range(3):
+            got = sum(1 for i in ids if lay[i] == c)
+            if cnt[c] and got != cnt[c] * (mx // cnt[c]):
+                self.bad("OversamplingWrapper", "class_balance_wrong", dict(mode="multiply"),
+                         f"class {c}: {got} entries, documented {cnt[c] * (mx // cnt[c])}; ids {ids}", "|multiply|unlabeled")
+        if sum(1 for i in ids if lay[i] == -1) != lay.count(-1):
+            self.bad("OversamplingWrapper", "unlabeled_changed", dict(mode="multiply"), f"ids {ids}", "|multiply|unlabeled")
+
+    UNLABELED = ("classwise_subset", "oversampling_unlabeled")
 
     ALL = ("class_filter", "class_filter_sparse", "percent_filter", "subset", "shuffle", "repeat", "oversampling", "sort_by_class",
            "intra_class_shuffle", "fewshot", "classwise_subset")
@@ -409,6 +434,14 @@ class Checker:
 def layouts(maxlen):
     for L in range(0, maxlen + 1):
         yield from itertools.product(range(3), repeat=L)
+
+
+def unlabeled_layouts(maxlen):
+    """layouts over {-1 (unlabeled), 0, 1, 2} that contain at least one unlabeled sample"""
+    for L in range(1, maxlen + 1):
+        for lay in itertools.product((-1, 0, 1, 2), repeat=L):
+            if -1 in lay:
+                yield lay
 
 
 def task(args):
@@ -428,13 +461,19 @@ def run(run):
     lays.sort(key=len)
     chunk = 4 if run.tier == "quick" else 12
     tasks = [(lays[i:i + chunk], Checker.ALL) for i in range(0, len(lays), chunk)]
+    ulen = 4 if run.tier == "quick" else 6
+    ulays = list(unlabeled_layouts(ulen))
+    tasks += [(ulays[i:i + 8 * chunk], Checker.UNLABELED) for i in range(0, len(ulays), 8 * chunk)]
     tasks.reverse()
     run.pmap(task, tasks)
+    run.extra.update(unlabeled_layouts=len(ulays), unlabeled_layout_len=f"1..{ulen}")
     run.extra.update(bounds=dict(layout_len=f"0..{maxlen}", classes=3, percents=[repr(p) for p in PERCENTS],
                                  seeds=[None, 0, 1, 2], horizon_cpu_seconds=HORIZON_S), layouts=len(lays))
     run.assumptions += [
         "AssertionError / NotImplementedError / ValueError from a constructor count as explicit rejection",
         "percent rounding is undocumented: only contiguity, monotonicity and complementary partition are required",
+        "layouts with unlabeled (-1) samples are explored for the two wrappers whose treatment of them is established by the "
+        "library (ClasswiseSubsetWrapper: unlabeled samples belong to no class; OversamplingWrapper(multiply): unchanged)",
     ]
 
 
@@ -450,6 +489,8 @@ def replay(case):
             "ShuffleWrapper": "shuffle", "RepeatWrapper": "repeat", "OversamplingWrapper": "oversampling",
             "SortByClassWrapper": "sort_by_class", "IntraClassShuffleWrapper": "intra_class_shuffle",
             "FewshotWrapper": "fewshot", "ClasswiseSubsetWrapper": "classwise_subset"}[w]
+    if -1 in case["layout"] and w == "OversamplingWrapper":
+        name = "oversampling_unlabeled"
     getattr(c, name)()
     if not p.violations:
         return None
